@@ -29,6 +29,38 @@ func braces(inner string, st Style) string {
 	return "{{ " + inner + " }}"
 }
 
+// pad is optional white space inside a directive's parentheses (only in the
+// varied layout); name writes a directive's name argument in either quote style
+func (st Style) pad() string {
+	if st.Marks || st.Layout != NewlineLayout || st.Rng == nil {
+		return ""
+	}
+	return []string{"", "", "", " ", "\n", "\t", "  ", "\r\n"}[st.Rng.Intn(8)]
+}
+
+func (st Style) inKeyword() string {
+	if st.Marks || st.Layout != NewlineLayout || st.Rng == nil {
+		return " in "
+	}
+	ws := []string{" ", "\n", "\t", "  ", " \n "}
+	return ws[st.Rng.Intn(len(ws))] + "in" + ws[st.Rng.Intn(len(ws))]
+}
+
+func (st Style) sep(s string) string {
+	if st.Marks || st.Layout != NewlineLayout || st.Rng == nil {
+		return s
+	}
+	return st.pad() + strings.TrimSpace(s) + st.pad()
+}
+
+func (st Style) name(n string) string {
+	q := byte('"')
+	if !st.Marks && st.Layout == NewlineLayout && st.Rng != nil && st.Rng.Intn(2) == 0 && CanQuote(n, '\'') {
+		q = '\''
+	}
+	return st.pad() + st.quote(n, q)
+}
+
 func printStmt(sb *strings.Builder, s Stmt, st Style) {
 	switch n := s.(type) {
 	case Text:
@@ -44,23 +76,23 @@ func printStmt(sb *strings.Builder, s Stmt, st Style) {
 	case Comment:
 		sb.WriteString("{{--" + st.open("c") + n.Body + "--}}" + st.close())
 	case Dump:
-		sb.WriteString("@dump(" + st.open("a"))
+		sb.WriteString("@dump(" + st.open("a") + st.pad())
 		for i, a := range n.Args {
 			if i > 0 {
-				sb.WriteString(", ")
+				sb.WriteString(st.sep(", "))
 			}
 			sb.WriteString(Source(a, st))
 		}
-		sb.WriteString(")" + st.close())
+		sb.WriteString(st.pad() + st.pad() + ")" + st.close())
 	case If:
 		for i, c := range n.Conds {
 			if i == 0 {
-				sb.WriteString("@if(" + st.open("a"))
+				sb.WriteString("@if(" + st.open("a") + st.pad())
 			} else {
-				sb.WriteString("@elseif(" + st.open("a"))
+				sb.WriteString("@elseif(" + st.open("a") + st.pad())
 			}
 			sb.WriteString(Source(c, st))
-			sb.WriteString(")" + st.close())
+			sb.WriteString(st.pad() + st.pad() + ")" + st.close())
 			if i == 0 {
 				sb.WriteString(st.open("b"))
 			}
@@ -72,7 +104,7 @@ func printStmt(sb *strings.Builder, s Stmt, st Style) {
 		}
 		sb.WriteString("@end" + st.close())
 	case Each:
-		sb.WriteString("@each(" + st.open("a") + n.Var + " in " + Source(n.Arr, st) + ")" + st.close() + st.open("b"))
+		sb.WriteString("@each(" + st.open("a") + st.pad() + n.Var + st.inKeyword() + Source(n.Arr, st) + st.pad() + ")" + st.close() + st.open("b"))
 		sb.WriteString(PrintStmts(n.Body, st))
 		if n.Else != nil {
 			sb.WriteString("@else")
@@ -80,24 +112,24 @@ func printStmt(sb *strings.Builder, s Stmt, st Style) {
 		}
 		sb.WriteString("@end" + st.close())
 	case For:
-		sb.WriteString("@for(" + st.open("a"))
+		sb.WriteString("@for(" + st.open("a") + st.pad())
 		if n.Init != nil {
 			sb.WriteString(Join(append([]string{n.Init.Name, "="}, Tokens(n.Init.E, st)...), st))
 		} else if n.InitE != nil {
 			sb.WriteString(Source(n.InitE, st))
 		}
-		sb.WriteString("; ")
+		sb.WriteString(st.sep("; "))
 		if n.Cond != nil {
 			sb.WriteString(Source(n.Cond, st))
 		}
-		sb.WriteString("; ")
+		sb.WriteString(st.sep("; "))
 		switch p := n.Post.(type) {
 		case Assign:
 			sb.WriteString(Join(append([]string{p.Name, "="}, Tokens(p.E, st)...), st))
 		case Print:
 			sb.WriteString(Source(p.E, st))
 		}
-		sb.WriteString(")" + st.close() + st.open("b"))
+		sb.WriteString(st.pad() + ")" + st.close() + st.open("b"))
 		sb.WriteString(PrintStmts(n.Body, st))
 		if n.Else != nil {
 			sb.WriteString("@else")
@@ -109,15 +141,15 @@ func printStmt(sb *strings.Builder, s Stmt, st Style) {
 	case Continue:
 		sb.WriteString("@continue")
 	case BreakIf:
-		sb.WriteString("@breakIf(" + st.open("a") + Source(n.E, st) + ")" + st.close())
+		sb.WriteString("@breakIf(" + st.open("a") + st.pad() + Source(n.E, st) + st.pad() + ")" + st.close())
 	case ContinueIf:
-		sb.WriteString("@continueIf(" + st.open("a") + Source(n.E, st) + ")" + st.close())
+		sb.WriteString("@continueIf(" + st.open("a") + st.pad() + Source(n.E, st) + st.pad() + ")" + st.close())
 	case Component:
-		sb.WriteString("@component(" + st.open("a") + st.quote(n.Name, '"'))
+		sb.WriteString("@component(" + st.open("a") + st.name(n.Name))
 		if n.Args != nil {
-			sb.WriteString(", " + Source(*n.Args, st))
+			sb.WriteString(st.sep(", ") + Source(*n.Args, st))
 		}
-		sb.WriteString(")" + st.close())
+		sb.WriteString(st.pad() + st.pad() + ")" + st.close())
 		if len(n.Slots) > 0 {
 			for si, sl := range n.Slots {
 				if si == 0 {
@@ -128,7 +160,7 @@ func printStmt(sb *strings.Builder, s Stmt, st Style) {
 				if sl.Name == "" {
 					sb.WriteString("@slot")
 				} else {
-					sb.WriteString("@slot(" + st.open("a") + st.quote(sl.Name, '"') + ")" + st.close())
+					sb.WriteString("@slot(" + st.open("a") + st.name(sl.Name) + st.pad() + ")" + st.close())
 				}
 				sb.WriteString(st.open("b"))
 				sb.WriteString(PrintStmts(sl.Body, st))
@@ -140,19 +172,19 @@ func printStmt(sb *strings.Builder, s Stmt, st Style) {
 		if n.Name == "" {
 			sb.WriteString("@slot")
 		} else {
-			sb.WriteString("@slot(" + st.open("a") + st.quote(n.Name, '"') + ")" + st.close())
+			sb.WriteString("@slot(" + st.open("a") + st.name(n.Name) + st.pad() + ")" + st.close())
 		}
 	case Reserve:
-		sb.WriteString("@reserve(" + st.open("a") + st.quote(n.Name, '"') + ")" + st.close())
+		sb.WriteString("@reserve(" + st.open("a") + st.name(n.Name) + st.pad() + ")" + st.close())
 	case Use:
-		sb.WriteString("@use(" + st.open("a") + st.quote(n.Name, '"') + ")" + st.close())
+		sb.WriteString("@use(" + st.open("a") + st.name(n.Name) + st.pad() + ")" + st.close())
 	case Insert:
 		if n.Block != nil {
-			sb.WriteString("@insert(" + st.open("a") + st.quote(n.Name, '"') + ")" + st.close() + st.open("b"))
+			sb.WriteString("@insert(" + st.open("a") + st.name(n.Name) + st.pad() + ")" + st.close() + st.open("b"))
 			sb.WriteString(PrintStmts(n.Block, st))
 			sb.WriteString("@end" + st.close())
 		} else {
-			sb.WriteString("@insert(" + st.open("a") + st.quote(n.Name, '"') + ", " + Source(n.E, st) + ")" + st.close())
+			sb.WriteString("@insert(" + st.open("a") + st.name(n.Name) + st.sep(", ") + Source(n.E, st) + st.pad() + ")" + st.close())
 		}
 	}
 }
